@@ -10,6 +10,8 @@ def device(rng, **kw):
         d["latency"] = {"kind": "uniform", "lo": 0.0, "hi": rng.choice([0.05, 0.2, 0.5]), "seed": rng.randrange(10 ** 6)}
     if rng.random() < 0.3:
         d["chunk"] = rng.randrange(1, 10 ** 6)
+    if rng.random() < 0.15:
+        d["restrict_puts"] = {"p": rng.choice([0.3, 1.0]), "seed": rng.randrange(10 ** 6)}       # some PUTs are answered with @RESTRICTED
     d.update(kw)
     return d
 
@@ -128,6 +130,8 @@ def conn_lifecycle(rng):
         th = rng.choice(threads)
         th.insert(rng.randrange(len(th) + 1), ["drop"])
         spec["disconnect_ops"] = [["close"]] + ([["put", "X", "Z", "2"]] if rng.random() < 0.5 else [])
+    if how in ("drop", "eof", "close-disc", "drop+close", "write-fault") and rng.random() < 0.5:
+        spec["disconnect_ops"] = [["connected"]] + spec.get("disconnect_ops", [])      # what the connection reports inside the disconnect callback
     # API calls afterwards (must be silent no-ops on a dead connection)
     tail = [["sleep", rng.choice([0.5, 3.0])], ["connected"], ["put", "T", "A", "1"], ["get", "T", "B"], ["raw", "@T:C=3"], ["snap"], ["sleep", 1.0]]
     threads[0].extend([["join"]] + tail)
@@ -277,7 +281,7 @@ def api_init_fault(rng, T, total_replies=None, total_bytes=None):
     return spec
 
 
-def conn_check(rng, drops=False):
+def conn_check(rng, drops=False, repeat=False):
     """C17 flavour"""
     zones = [z for z in ("MAIN", "ZONE2", "ZONE3", "ZONE4") if rng.random() < 0.5]
     lat = rng.choice([0.0, 0.06, 0.099, 0.1, 0.101, 0.15, 0.4, 1.2, 1.4, 1.6, 3.0])
@@ -295,7 +299,11 @@ def conn_check(rng, drops=False):
         # (enabled once the L4 model has the close()-after-failed-connect path)
         # the link drops at / right after opening the port (the reader can run connection_lost before connect() returns) or in mid-check
         dev["drop_at"] = rng.choice([0, 0, 0.0001, 0.05, 0.15, 0.35, round(rng.uniform(0, 3.0), 3)])
+    if rng.random() < 0.06 and dev.get("model") is not None:
+        dev["model"] = ""                  # a receiver may report an empty model name: that is a model name reply
     spec = {"kind": "conn_check", "device": dev, "zones": zones, "final_wait": 6}
+    if repeat:
+        spec["repeat"] = 2                 # the check is run twice on the same YncaApi object; the last run is the one judged
     if rng.random() < 0.05:
         spec["open_fails"] = True
     return spec
@@ -346,6 +354,13 @@ def subunit_init(rng, T):
         inits.append(dict(entry(c), same_as=0))            # the same object is initialised a second time
         inits[0]["gap"] = rng.choice([0.0, 0.5, 3.0])
     spec = {"kind": "subunit", "class": c["py"], "device": dev, "inits": inits}
+    if len(inits) == 1 and rng.random() < 0.12:
+        # a write fails while the queries go out (persistently from the k-th line on, or just once): initialize() must fail within its bound
+        spec["write_fault_after" if rng.random() < 0.5 else "write_fault_once"] = (rng.randint(2, 30) if rng.random() < 0.5 else {"n": rng.randint(3, 30)})
+        if isinstance(spec.get("write_fault_after"), dict):
+            spec["write_fault_after"] = spec["write_fault_after"]["n"]
+        if isinstance(spec.get("write_fault_once"), int):
+            spec["write_fault_once"] = {"n": spec["write_fault_once"]}
     if rng.random() < 0.4:
         spec["pre_delay"] = rng.choice([0.3, 1.0, 4.5])     # unsolicited reports can arrive before initialize() is called
     return spec
@@ -363,7 +378,7 @@ def conn_late_write_fault(rng):
     """C01 flavour judged by the monitor only: the driver accepts the bytes of the k-th line and raises afterwards (write time-out / IO error);
     nothing may appear on the wire a second time"""
     spec = conn_traffic(rng, max_threads=2, max_cmds=12, long_idle=False)
-    spec["write_fault_late"] = {"n": rng.randint(1, 10), "exc": rng.choice(["SerialException", "SerialTimeoutException"])}
+    spec["write_fault_late" if rng.random() < 0.6 else "write_fault_once"] = {"n": rng.randint(1, 10), "exc": rng.choice(["SerialException", "SerialTimeoutException"])}
     return spec
 
 
@@ -497,7 +512,7 @@ def _wire_value(rng, T, f):
     ks = [f["conv"]["k"]] if f["conv"]["k"] != "multi" else [k["k"] for k in f["conv"]["items"]]
     if ks == ["str"] and rng.random() < 0.5:
         return rng.choice(["trail ", " lead", "  ", "two\nlines", "tab\there", "", "cr\rin", "a:b=c", "=", ":", "x\n", "\nx", "é", "Rock & Roll ", "ends=",
-                           "http://host/stream?id=42", "Ratio: 1=1", "a=b:c=d"])
+                           "http://host/stream?id=42", "Ratio: 1=1", "a=b:c=d", "L" * 300, "long title " * 40])
     return value_for(rng, T, f, undecodable_ok=True)
 
 
@@ -677,3 +692,17 @@ def api_reinit(rng, T):
              "silent_after": len(optional) + 3 + rng.randint(0, 6)}
     spec["first_device"] = first
     return spec
+
+
+def conn_flood(rng):
+    """C01 flavour: one or two callers submit far more commands than fit into a few seconds of wire time, without pausing; all of them reach
+    the wire, once, in order"""
+    n = rng.choice([105, 130, 180])
+    t0 = [[rng.choice(["put", "get"]), "C0", f"F{k}"] + ([str(k)] if False else []) for k in range(n)]
+    t0 = [(["put", "C0", f"F{k}", str(k)] if rng.random() < 0.5 else ["get", "C0", f"F{k}"]) for k in range(n)]
+    threads = [t0]
+    if rng.random() < 0.4:
+        threads.append([["put", "C1", f"G{k}", str(k)] for k in range(rng.randint(5, 40))])
+    total = sum(len(t) for t in threads)
+    threads[0] += [["join"], ["sleep", round(total * 0.1 + 3.0, 1)], ["snap"]]
+    return {"kind": "conn", "device": {"type": "scripted", "latency": rng.choice([0.0, 0.02, 0.15])}, "log_size": 0, "threads": threads, "pre_register": [1], "final_wait": 0}
